@@ -14,6 +14,7 @@ LeavesPlain == { I(0), I(1), I(2), I(7),
                  S(<<>>), S(<<97>>), S(<<98>>), S(<<97, 98>>),
                  Lit(BoolV(TRUE)), Lit(BoolV(FALSE)), Lit(NilV), Id("x") }
 LeavesAlt == { LitS(IntV(7), "hex"), LitS(IntV(7), "oct"), LitS(IntV(0), "HEX"), LitS(IntV(1), "oct"),
+               LitS(IntV(8), "oct"), LitS(IntV(493), "oct"), LitS(IntV(255), "hex"),       \* 010, 0755, 0xff: where the base matters
                LitS(FloatV(1, 2), "exp"), LitS(FloatV(2, 1), "EXP"), LitS(FloatV(5, 2), "EXP"),
                LitS(StrV(<<97>>), "hex"), LitS(StrV(<<97, 98>>), "uni"), LitS(StrV(<<98>>), "oct") }
 LeavesT == LeavesPlain \cup LeavesAlt
